@@ -4,8 +4,9 @@ import (
 	"go/ast"
 	"go/token"
 	"go/types"
-	"golang.org/x/tools/go/ssa"
 	"strings"
+
+	"golang.org/x/tools/go/ssa"
 )
 
 // navEvalFuncs: the declarations of the navigation evaluators.
@@ -141,7 +142,6 @@ func c11Provenance(r *Run) {
 		}
 	}
 }
-
 
 // nameOfExprHelper: g(x ast.Expression) string returns, on every return, x.String() or the Value of
 // the identifier x is (directly or through a local all of whose definitions are such).
